@@ -1386,9 +1386,9 @@ def u_gym2lerax(ctx):
             self.log.append(("step", np.asarray(action).copy(), np.asarray(o).copy(), float(r), bool(te), bool(tr)))
             return o, r, te, tr, info
 
-    ids = [("CartPole-v1", 9), ("MountainCar-v0", 5), ("Pendulum-v1", 4), ("Acrobot-v1", 6)]
+    ids = [("CartPole-v1", 9), ("MountainCar-v0", 5), ("Pendulum-v1", 4), ("Acrobot-v1", 6), ("FrozenLake-v1", 6)]
     if not ctx.quick:
-        ids += [("MountainCarContinuous-v0", 7), ("CartPole-v1", 500), ("FrozenLake-v1", 6)]
+        ids += [("MountainCarContinuous-v0", 7), ("CartPole-v1", 500), ("CliffWalking-v1", 8)]
     n_steps = ctx.n(40, 150)
     pre = "gym-to-lerax"
     for ei, (gid, M) in enumerate(ids):
@@ -1455,7 +1455,7 @@ def u_gym2lerax(ctx):
                                 ctx.violation(f"{pre}-auto-reset-missing-or-unseeded", {"env": name, "i": i, "resets": len(resets)})
                                 break
                             want_next = twin.reset(seed=int(resets[0][1]))[0]
-                            want_o = want_next
+                            want_o = np.asarray(want_next)
                         if not np.array_equal(np.asarray(env.observation(nst, key=k)), np.asarray(want_next).astype(np.asarray(nst.observation).dtype)):
                             ctx.violation(f"{pre}-post-reset-observation-mismatch", {"env": name, "api": api, "i": i})
                             break
@@ -1466,10 +1466,18 @@ def u_gym2lerax(ctx):
                         break
                     st = nst
             except Exception as e:
-                key = f"{pre}-raises"
+                key, detail = f"{pre}-raises", {"env": name, "api": api, "error": f"{type(e).__name__}: {e}"[-300:]}
                 if "unhashable type" in str(e):
+                    # the adapted env's own step() raised on the 0-d ndarray the adapter hands it for a Discrete action
                     key = f"{pre}-discrete-action-passed-as-ndarray"
-                ctx.violation(key, {"env": name, "api": api, "error": f"{type(e).__name__}: {e}"[-500:]})
+                    try:
+                        twin.reset(seed=1)
+                        twin.step(0)
+                        detail["twin_stepped_with_python_int"] = "ok"
+                    except Exception as e2:
+                        detail["twin_stepped_with_python_int"] = f"{type(e2).__name__}: {e2}"[:200]
+                    detail["adapter_passes"] = "np.asarray(action) (0-d integer ndarray)"
+                ctx.violation(key, detail)
             finally:
                 try:
                     genv.close()
